@@ -45,7 +45,9 @@ def bits(x):
 
 
 class World:
-    def __init__(self, case, perm_events=None, perm_cats=None, perm_cells=None):
+    def __init__(self, case, perm_events=None, perm_cats=None, perm_cells=None, pool=None):
+        self.pool = pool
+        self.cat_ids = list(perm_cats) if perm_cats is not None else list(range(len(case["cats"])))
         setup = dict(case["setup"])
         rates_a = numpy.array(setup["rates"], dtype=float)
         rates_b = numpy.array(case["rates_b"], dtype=float)
@@ -92,7 +94,18 @@ class World:
 
     def cf(self):
         from csep.core.forecasts import CatalogForecast
-        cs = [self.S.catalog(self.region, obs=c, name="c") for c in self.cats]
+        if self.pool is not None:
+            # "shared_cats": the synthetic catalogs are in-memory objects built once, without a region, and handed to every forecast of
+            # the case (base and variants, each on its own region object): a forecast grids them on ITS region
+            from csep.core.catalogs import CSEPCatalog
+            cs = []
+            for pos, c in enumerate(self.cats):
+                j = self.cat_ids[pos]
+                if j not in self.pool:
+                    self.pool[j] = CSEPCatalog(data=[self.S.event(i, k, m) for i, (k, m) in enumerate(c)], name="c")
+                cs.append(self.pool[j])
+        else:
+            cs = [self.S.catalog(self.region, obs=c, name="c") for c in self.cats]
         return CatalogForecast(catalogs=cs, n_cat=len(cs), region=self.region, start_time=G.T0, end_time=G.T1, name="cf")
 
 
@@ -241,10 +254,13 @@ def check_case(ctx, case):
         ref = run_suite(ctx, base, case, "base")
         variants = [("events", QuadWorld(case, perm_events=case["perm_events"])), ("cells", QuadWorld(case, perm_cells=case["perm_cells"]))]
     else:
-        base = World(case)
+        pool = {} if case.get("shared_cats") else None
+        if pool is not None:
+            ctx.count("cases_with_shared_synthetic_catalog_objects")
+        base = World(case, pool=pool)
         ref = run_suite(ctx, base, case, "base")
-        variants = [("events", World(case, perm_events=case["perm_events"])), ("catalogs", World(case, perm_cats=case["perm_cats"])),
-                    ("cells", World(case, perm_cells=case["perm_cells"]))]
+        variants = [("events", World(case, perm_events=case["perm_events"], pool=pool)), ("catalogs", World(case, perm_cats=case["perm_cats"], pool=pool)),
+                    ("cells", World(case, perm_cells=case["perm_cells"], pool=pool))]
     for vname, W in variants:
         got = run_suite(ctx, W, case, vname)
         for name, (kind, r0) in ref.items():
@@ -338,6 +354,7 @@ def cases(draw):
         setup["obs"] = setup["obs"] + extra
     n = len(setup["obs"])
     return {**({"np_seed": True} if draw(st.integers(0, 2)) == 0 else {}),
+            **({"shared_cats": True} if draw(st.integers(0, 2)) == 0 else {}),
             "setup": setup, "rates_b": rates_b, "cats": cats, "seed": draw(st.sampled_from([0, 1, 7, 2**31 - 1])), "nsim": draw(st.integers(1, 4)),
             "perm_events": list(draw(st.permutations(list(range(n))))), "perm_cats": list(draw(st.permutations(list(range(J))))),
             "perm_cells": list(draw(st.permutations(list(range(nc)))))}
